@@ -123,6 +123,10 @@ def run_property(prop_id, spec, program, roles, tier, seed, rules_registry, t0, 
 
 def write_evidence(prop_id, spec, ctx, new, reported_known, tier, seed, wall, program, roles, repo, extra=None):
     ev_dir = os.path.join(VERIF, 'evidence')
+    if os.path.realpath(repo) != os.path.realpath('/repo'):
+        # development / self-test runs against scratch copies never touch the committed evidence
+        import tempfile
+        ev_dir = os.environ.get('VERIF_EVIDENCE_DIR') or os.path.join(tempfile.gettempdir(), 'verif_scratch_evidence')
     os.makedirs(ev_dir, exist_ok=True)
     insts = ctx.instances
     obligations = sum(1 for i in insts if i['verdict'] in ('ok', 'violation', 'unproven'))
